@@ -328,6 +328,22 @@ static void flush_bitpack(carquet_rle_encoder_t* enc) {
     enc->bitpack_total = 0;
 }
 
+/*
+ * A partial literal group may only be padded at the very end of the stream:
+ * padding values in the middle would be decoded as data. Before a repeated
+ * run is emitted, complete the pending group with values taken from the run.
+ */
+static void complete_group_from_run(carquet_rle_encoder_t* enc) {
+    while (enc->bitpack_count > 0 && enc->bitpack_count < 8 && enc->repeat_count > 0) {
+        enc->bitpack_buffer[enc->bitpack_count++] = enc->prev_value;
+        enc->bitpack_total++;
+        enc->repeat_count--;
+    }
+    if (enc->bitpack_count == 8) {
+        flush_bitpack(enc);
+    }
+}
+
 void carquet_rle_encoder_init(
     carquet_rle_encoder_t* enc,
     carquet_buffer_t* buffer,
@@ -361,8 +377,11 @@ carquet_status_t carquet_rle_encoder_put(
 
     /* Value changed */
     if (enc->repeat_count >= 8) {
+        /* Fill any pending literal group from this run first */
+        complete_group_from_run(enc);
+    }
+    if (enc->repeat_count >= 8) {
         /* Flush as RLE */
-        flush_bitpack(enc);  /* Flush any pending bit-pack */
         flush_rle(enc);
     } else {
         /* Add to bit-pack buffer */
@@ -400,7 +419,9 @@ carquet_status_t carquet_rle_encoder_flush(carquet_rle_encoder_t* enc) {
     }
 
     if (enc->repeat_count >= 8) {
-        flush_bitpack(enc);
+        complete_group_from_run(enc);
+    }
+    if (enc->repeat_count >= 8) {
         flush_rle(enc);
     } else if (enc->repeat_count > 0) {
         for (int64_t i = 0; i < enc->repeat_count; i++) {
